@@ -261,8 +261,8 @@ func ruleLimitComparisons(c *core.Ctx, rule string) {
 				}
 				if l := isLimit(be.Y); l != "" {
 					lim = l
-					refuseStrict = be.Op == token.GTR  // x > K
-					inclusive = be.Op == token.LEQ     // x <= K (accept form)
+					refuseStrict = be.Op == token.GTR // x > K
+					inclusive = be.Op == token.LEQ    // x <= K (accept form)
 				} else if l := isLimit(be.X); l != "" {
 					lim = l
 					refuseStrict = be.Op == token.LSS // K < x
